@@ -1,8 +1,9 @@
 /-
 Line protocol for the life-cycle model (C10):
 
-  (hist <archive> <ev> ...)   ev = boot | sb | se | da | up | fa | sr | (c <i> <reopen>) | rf | rt
+  (hist <archive> <ev> ...)   ev = boot | sb | se | da | up | fa | sr | (c <i> <reopen>) | rf | rt | (raw <trigger>)
       → (<obs> ...) one observation after every event
+      (raw: the trigger fired from outside a callback with no call-site guard - probes of the harness)
       (rf / rt: the reset request of fe/api `cmd_reset(archive)`: when active, `ARCHIVE |= archive`
        then wait_for_nothing → update_trigger, i.e. the events [fa]? ++ [up]; otherwise refused)
   (fire <state> <tr> <prior|N> <openAgain> <archive> <trigger>)
@@ -79,14 +80,17 @@ def obs (c : Core) (outstanding : List Step) (r : Outcome) (o : Out) : Sx :=
 inductive IOEvent where
   | ev (e : Event)
   | reset (archive : Bool)
+  | raw (t : Trigger)
 
 def ioEventOf? : Sx → Option IOEvent
   | .atom "rf" => some (.reset false)
   | .atom "rt" => some (.reset true)
+  | .list [.atom "raw", t] => (triggerOf? t).map .raw
   | x => (eventOf? x).map .ev
 
 def ioStep (s : St) : IOEvent → St × Out × Outcome
   | .ev e => step s e
+  | .raw t => let r := fireTop t s; (r.1, r.2, r.2.outcome)
   | .reset a =>
     if s.isActive then step (if a then next s .flagArchive else s) .update else noop s .refused
 
